@@ -25,6 +25,10 @@ DENOMS = [2, 4, 8, 16]
 @st.composite
 def wellformed_notes(draw, channels=(0, 1), pitches=(60, 61, 62, 64), max_notes=8, max_len=60, max_gap=40,
                      unit=1, lengths=None, start_max=40, short_bias=True):
+    vel_extremes = [1, 127]
+    if channels == "pool":
+        channels = draw(channel_pool())
+        vel_extremes = [0, 1, 127]          # a hand-built note-on may carry velocity 0 (a silent note; it still has a note-off)
     """list of [channel, pitch, on, off, velocity]; intervals of one (channel, pitch) never overlap (they may abut).
     lengths: optional explicit list of allowed durations. unit: all onsets are multiples of unit."""
     n = draw(st.integers(0, max_notes))
@@ -52,7 +56,7 @@ def wellformed_notes(draw, channels=(0, 1), pitches=(60, 61, 62, 64), max_notes=
         length = draw(len_s) * (unit if lengths is None else 1)
         off = on + length
         cursor[k] = off
-        notes.append([ch, p, on, off, draw(st.one_of(st.integers(1, 127), st.sampled_from([1, 127])))])
+        notes.append([ch, p, on, off, draw(st.one_of(st.integers(1, 127), st.sampled_from(vel_extremes)))])
     notes.sort()
     return notes
 
@@ -63,7 +67,7 @@ def meta_events(draw, max_tick=200, max_events=3, unit=1, with_noise=False, tick
     n = draw(st.integers(0, max_events))
     ev = []
     seen = set()
-    kinds = ["ts", "ks"] + (["cc", "pc"] if with_noise else [])
+    kinds = ["ts", "ks"] + (["cc", "pc", "sc"] if with_noise else [])
     tick_s = st.sampled_from(ticks) if ticks else st.one_of(st.just(0), st.integers(0, max_tick // unit).map(lambda x: x * unit))
     for _ in range(n):
         kind = draw(st.sampled_from(kinds))
@@ -93,6 +97,8 @@ def meta_events(draw, max_tick=200, max_events=3, unit=1, with_noise=False, tick
                                  # a different signature with the same ratio as an earlier one (3/4 -> 6/8)
                                  st.sampled_from(same_ratio) if same_ratio else st.just((2, 2))))
             ev.append(["ts", t, val[0], val[1]])
+        elif kind == "sc":
+            ev.append(["sc", t])            # the SEQUENCE_CONTROL member of MessageType (hand-built only)
         elif kind == "ks":
             prev = [e[2] for e in ev if e[0] == "ks"]
             ev.append(["ks", t, draw(st.one_of(st.sampled_from(KEYS), st.sampled_from(prev) if prev else st.just("C")))])
@@ -113,6 +119,26 @@ def route(draw, n_msgs_hint=24, allow_post=True):
     if allow_post:
         d["post"] = draw(st.sampled_from([None, None, "normalise", "refresh", "read_abs", "read_rel"]))
     return d
+
+
+# channel pools: two adjacent low channels mostly; sometimes the top of the MIDI range, the percussion channel, one channel only
+CHANNEL_POOLS = [(0, 1), (0, 1), (0, 1), (0, 15), (14, 15), (9, 10), (3,), (0, 1, 2)]
+
+
+def channel_pool():
+    return st.sampled_from(CHANNEL_POOLS)
+
+
+FAR = [1000, 65536 - 7, 65536, 100000, 2 ** 20 + 3]
+
+
+def far_shift(draw, spec, one_in=12):
+    """with probability 1/one_in: move the whole content far away from tick 0 (large absolute tick values)"""
+    if draw(st.integers(0, one_in - 1)) == 0:
+        spec["shift"] = draw(st.sampled_from(FAR))
+        if spec.get("pad") is not None:
+            spec["pad"] += spec["shift"]
+    return spec.get("shift", 0)
 
 
 @st.composite
